@@ -149,6 +149,25 @@ PROPS = {
         "exhaustive_note": "tiling exhaustive for res 0-5 (quick) / 0-6 (thorough); area sums for res 0-5 / 0-7",
         "assumptions": ["tolerances 1e-12 rad (shared vertices) from the property; 1e-8 relative (area) and 1e-9 (sum) measured with >100x headroom"],
     },
+    "C09": {
+        "sources": KIT + ["mon_C09.c"],
+        "phases": simple("mon_C09.c"),
+        "level": "exploration",
+        "level_text": "gridDistance is compared with BFS depth on geometry-derived adjacency for every ordered pair of cells on the globe at res 0-1 and res 2 (every second origin quick, all thorough), all pairs within "
+                      "12 (quick, 1/8 of origins) / 25 (thorough, all origins) steps at res 3, and all cells within 10 (quick) / 20 (thorough) steps of every origin within 2 / 4 steps of each pentagon at res 3-15; symmetry, "
+                      "0 for a=b, 1 and mandatory success for neighbours, E_RES_MISMATCH. Local IJ: both round-trip directions over the same balls and over the (2R+1)^2 IJ grid around each origin, unit steps between "
+                      "neighbours where BFS finds no pentagon within R+1, extreme IJ inputs under UBSan. ASan+UBSan.",
+        "level_note": "Trusted base: geometric adjacency + BFS. Far pairs (distance up to 200) at fine resolutions are judged for symmetry only, the BFS ball being too large.",
+        "technique": "runtime monitoring: reference-model comparison (BFS on geometry-derived adjacency), round-trip and local-consistency monitors on the IJ chart, UBSan for the overflow guards",
+        "evaluations": ["pairs", "ij.to_calls", "ij.from_calls", "ij.extreme_calls"],
+        "rule": "cases: ordered (origin, cell) pairs; (origin, cell) and (origin, i, j) IJ conversions. Evidence counts pairs; the distinct set holds origins (whole-resolution sweeps: each origin against every cell of the "
+                "resolution; ball sweeps: each origin against its BFS ball), non-trivial = every origin; distinct by origin (and radius).",
+        "require": {"pairs": {"quick": 10000000, "thorough": 100000000}, "pairs.success": 1000000, "pairs.failed": 100000, "origins.ball_with_pentagon": 500, "ij.roundtrips": 100000, "ij.roundtrips_rev": 100000,
+                    "ij.neighbour_steps": 100000, "ij.extreme_rejected": 100, "mismatch.calls": 100},
+        "exhaustive": True,
+        "exhaustive_note": "all ordered pairs at res 0-1 (and res 2 in the thorough tier); balls elsewhere",
+        "assumptions": ["geometric adjacency is the neighbour relation of the statement (validated by C08)"],
+    },
     "C13": {
         "sources": KIT + ["mon_C13.c"],
         "phases": simple("mon_C13.c"),
@@ -162,6 +181,21 @@ PROPS = {
         "rule": "cases: (parent, childRes, position), (child, parentRes), whole child lists, hostile resolutions. Non-trivial = family with >1 child or out-of-range position or child strictly finer than the parent; distinct by hash of the triple.",
         "require": {"pos.calls": 50000, "pos.out_of_range": 1000, "rank.calls": 10000, "list.positions": 100000, "errors.rejected": 500},
         "assumptions": ["reference rank/unrank equals the documented child order"],
+    },
+    "C14": {
+        "sources": KIT + ["mon_C14.c"],
+        "phases": simple("mon_C14.c"),
+        "level": "exploration",
+        "level_text": "Every successful gridPathCells output is checked cell by cell: announced size = gridDistance+1 = BFS depth+1, first/last cells, every step a geometric neighbour of its predecessor, all cells valid; "
+                      "mandatory success for a=b and neighbours; exact-size output buffers under ASan so that any write beyond the announced size (also on failure) is seen. Workload: all ordered pairs up to distance 40 "
+                      "at res 0-1 and res 2 (1/16 of origins quick, all thorough), BFS balls of radius 8 (quick) / 20 (thorough) around origins within 1 / 3 steps of every pentagon at res 3-15, seam and random origins, and "
+                      "long paths (100-2000 cells) at res 8-15 in straight, |di|=|dj| and half-integer tie directions.",
+        "level_note": "Trusted base: geometric adjacency and BFS; long paths have no BFS oracle (contiguity + announced length + gridDistance consistency only; gridDistance itself is C09's subject).",
+        "technique": "runtime monitoring: per-step adjacency monitor on geometry-derived neighbours plus BFS reference distance, exact-size buffers under ASan/UBSan",
+        "evaluations": ["pairs"],
+        "rule": "a case is an ordered (start, end) pair run through gridPathCellsSize, gridDistance and gridPathCells. Non-trivial = successful path of more than two cells; distinct by hash of the pair.",
+        "require": {"pairs": 1000000, "paths.success": 300000, "paths.failed": 1000, "long.cases": 50, "origins.ball": 300},
+        "assumptions": ["geometric adjacency is the neighbour relation of the statement (validated by C08)"],
     },
     "C20": {
         "sources": KIT + ["mon_C20.c"],
